@@ -99,6 +99,8 @@ def gen_unary(rng, cx=False):
         for r in RANKS:
             yield case(name, [A(rng, shape_of_rank(rng, r), d, cx)])
         yield case(name, [A(rng, shape_of_rank(rng, 2, ones=True), d, cx)])
+        yield case(name, [A(rng, (1,), d, cx)])
+        yield case(name, [A(rng, (1, 1), d, cx)])
         yield case(name, [scal(rng, d, cx, "s")])
         yield case(name, [scal(rng, d, cx, "n")])
         if name == "negative":
@@ -319,6 +321,17 @@ def gen_reductions(rng, cx=False):
                     yield case(name, [A(rng, shape_of_rank(rng, r), dom, cx), r - 1])
                     yield case(name, [A(rng, shape_of_rank(rng, r), dom, cx), -1], form="method")
         yield case(name, [scal(rng, "any", cx)])
+        # all-ones shapes (one element, rank >= 1)
+        for shp in ((1,), (1, 1), (1, 1, 1)):
+            for (ax, cls) in [("__default__", "default"), (None, "none"), (0, "zero"), (-1, "neg")] + ([((0, 1), "tuple")] if len(shp) >= 2 else []):
+                for kd in ("__default__", True):
+                    kw = {}
+                    if ax != "__default__":
+                        kw["axis"] = ax
+                    if kd != "__default__":
+                        kw["keepdims"] = kd
+                    yield case(name, [A(rng, shp, "any", cx)], kw)
+            yield case(name, [A(rng, shp, "any", cx)], form="method")
     # cumsum
     for r in RANKS:
         for (ax, cls) in [("__default__", "default"), (None, "none")] + [(i, "pos") for i in range(r)] + [(i - r, "neg") for i in range(r)]:
@@ -326,6 +339,9 @@ def gen_reductions(rng, cx=False):
             yield case("cumsum", [A(rng, shape_of_rank(rng, r), "any", cx)], kw)
             if r in (1, 3):
                 yield case("cumsum", [A(rng, shape_of_rank(rng, r), "any", cx)], kw, form="method")
+    for shp in ((1,), (1, 1)):
+        yield case("cumsum", [A(rng, shp, "any", cx)])
+        yield case("cumsum", [A(rng, shp, "any", cx)], {"axis": 0})
     if not cx:
         # ties in max/min family (kink)
         for name in ("max", "min", "amax", "amin"):
